@@ -2,12 +2,14 @@
 # usage: seed_verify.sh Cxx [name]   — confirm a seeded change in its scratch worktree /tmp/seed/Cxx
 # (tests pass with the change, demo fails with it and passes without), then store it under /verif/seeded/<name>/
 set -u
+export SEED_ROOT=${SEED_ROOT:-/tmp/seed}
 P=$1; NAME=${2:-$1}
-D=/tmp/seed/$P
+R=${SEED_ROOT:-/tmp/seed}
+D=$R/$P
 export CARGO_NET_OFFLINE=true RUST_BACKTRACE=0 CARGO_TARGET_DIR=$D/target
 cd $D || exit 2
-git diff -- src Cargo.toml > /tmp/seed/$P.check.diff
-if ! diff -q /tmp/seed/$P.check.diff $D/seed_out/patch.diff >/dev/null; then echo "NOTE: patch.diff differs from worktree diff; using worktree diff"; cp /tmp/seed/$P.check.diff $D/seed_out/patch.diff; fi
+git diff -- src Cargo.toml > $R/$P.check.diff
+if ! diff -q $R/$P.check.diff $D/seed_out/patch.diff >/dev/null; then echo "NOTE: patch.diff differs from worktree diff; using worktree diff"; cp $R/$P.check.diff $D/seed_out/patch.diff; fi
 cargo build --offline >/dev/null 2>&1 || { echo "BUILD FAILED"; exit 1; }
 bash $D/seed_out/demo.sh $D/target/debug/agrind >/dev/null 2>&1; CH=$?
 bash $D/seed_out/demo.sh /verif/build/target-repo/debug/agrind >/dev/null 2>&1; OR=$?
@@ -19,7 +21,8 @@ if [ "$OR" = 0 ] && [ "$CH" != 0 ] && [ "$T" = "179 passed 0 failed" ]; then
   python3 - "$P" "$NAME" "$OR" "$CH" "$T" <<'PY'
 import json,sys
 p,name,orr,ch,t=sys.argv[1:6]
-m=json.load(open('/tmp/seed/%s/seed_out/meta.json'%p))
+import os
+m=json.load(open('%s/%s/seed_out/meta.json'%(os.environ.get('SEED_ROOT','/tmp/seed'),p)))
 m.update({'property':p,'confirmed':{'demo_exit_original_binary':int(orr),'demo_exit_changed_binary':int(ch),'cargo_test_with_change':t,
   'how':'tools/seed_verify.sh: built the change in a scratch worktree outside /repo and /verif, ran demo.sh against it and against the binary built from /repo HEAD, ran cargo test --offline with the change'}})
 json.dump(m,open('/verif/seeded/%s/meta.json'%name,'w'),indent=1)
